@@ -13,6 +13,7 @@ import (
 	"errors"
 	"fmt"
 	"os"
+	"sort"
 	"strings"
 	"testing"
 
@@ -75,11 +76,12 @@ type machine struct {
 	rw      *txh
 	nextID  int
 	ops     []string
-	stopped bool // a known finding left the database in an unmodelled state
+	stopped bool                       // a known finding left the database in an unmodelled state
+	ever    map[string]map[string]bool // per bucket path: every key / bucket name ever written (absence checks)
 
 	fRollbackAfterWrite, fFailedUpdateAfterWrite, fCursorPending, fReopen, fDirChange bool
-	fSnapshotAcrossCommit, fNested, fCursorDelete                                   bool
-	flushesSeen                                                                     bool
+	fSnapshotAcrossCommit, fNested, fCursorDelete                                     bool
+	flushesSeen                                                                       bool
 }
 
 func (m *machine) log(f string, a ...any) { m.ops = append(m.ops, fmt.Sprintf(f, a...)) }
@@ -113,13 +115,39 @@ func hashN(i int) common.Uint256 {
 
 // ---------------------------------------------------------------- generators
 
+// alphabet / name lengths of the running profile (set by runMachine; cases run
+// serially inside a process)
+var (
+	nameAlphabet = []byte("abcd")
+	nameLens     = []int{0, 1, 1, 1, 1, 1, 2, 2, 2, 3}
+)
+
 func genName(t *rapid.T, label string) string {
-	n := rapid.SampledFrom([]int{0, 1, 1, 1, 1, 1, 2, 2, 2, 3}).Draw(t, label+"Len")
+	n := rapid.SampledFrom(nameLens).Draw(t, label+"Len")
 	var sb strings.Builder
 	for i := 0; i < n; i++ {
-		sb.WriteByte(rapid.SampledFrom([]byte("abcd")).Draw(t, label+"Ch"))
+		sb.WriteByte(rapid.SampledFrom(nameAlphabet).Draw(t, label+"Ch"))
 	}
 	return sb.String()
+}
+
+// pickName prefers names that exist (or once existed) under the bucket, so that
+// deletes, re-creations and reads hit something.
+func (m *machine) pickName(t *rapid.T, label string, path []string, existing []string) string {
+	cands := append([]string{}, existing...)
+	var old []string
+	for n := range m.ever[pathStr(path)] {
+		old = append(old, n)
+	}
+	sort.Strings(old)
+	cands = append(cands, old...)
+	if len(cands) > 0 && rapid.IntRange(0, 9).Draw(t, label+"Known") < 6 {
+		n := rapid.SampledFrom(cands).Draw(t, label+"Pick")
+		if !isSpecial(n) {
+			return n
+		}
+	}
+	return genName(t, label)
 }
 
 func genValue(t *rapid.T) []byte {
@@ -316,6 +344,17 @@ func (m *machine) realBucket(t *rapid.T, x *txh, path []string) database.Bucket 
 	return b
 }
 
+func (m *machine) remember(path []string, name string) {
+	p := pathStr(path)
+	if m.ever == nil {
+		m.ever = map[string]map[string]bool{}
+	}
+	if m.ever[p] == nil {
+		m.ever[p] = map[string]bool{}
+	}
+	m.ever[p][name] = true
+}
+
 func (x *txh) touch(path []string) {
 	x.wrote = true
 	x.pendingW[pathStr(path)] = true
@@ -375,7 +414,7 @@ func (m *machine) kvOp(t *rapid.T, x *txh) {
 
 	switch kind {
 	case "put":
-		k, v := genName(t, "key"), genValue(t)
+		k, v := m.pickName(t, "key", path, nil), genValue(t)
 		var extra []database.ErrorCode
 		if k == "" {
 			extra = append(extra, database.ErrKeyRequired)
@@ -385,11 +424,12 @@ func (m *machine) kvOp(t *rapid.T, x *txh) {
 		m.log("%s Put(%q, %s) -> %v", tag, k, vk.Hex(v), err)
 		if m.expectErr(t, "Put", err, want...) && len(want) == 0 {
 			mb.keys[k] = append([]byte{}, v...)
+			m.remember(path, k)
 			x.touch(path)
 			x.invalidate(path, nil)
 		}
 	case "get":
-		k := genName(t, "key")
+		k := m.pickName(t, "key", path, nil)
 		got := rb.Get([]byte(k))
 		m.log("%s Get(%q) -> %s", tag, k, showVal(got))
 		var want []byte
@@ -399,7 +439,7 @@ func (m *machine) kvOp(t *rapid.T, x *txh) {
 		}
 		m.checkValue(t, "Get", k, got, want, exists)
 	case "delete":
-		k := genName(t, "key")
+		k := m.pickName(t, "key", path, nil)
 		want := m.writeErrs(x)
 		err := rb.Delete([]byte(k))
 		m.log("%s Delete(%q) -> %v", tag, k, err)
@@ -420,7 +460,7 @@ func (m *machine) kvOp(t *rapid.T, x *txh) {
 			x.invalidate(path, nil)
 		}
 	case "createBucket", "createIfNotExists":
-		name := genName(t, "bname")
+		name := m.pickName(t, "bname", path, nil)
 		if len(path) >= maxDepth {
 			kind = "createBucket"
 			name = "" // depth limit reached: only the error path
@@ -451,6 +491,7 @@ func (m *machine) kvOp(t *rapid.T, x *txh) {
 			}
 			if !exists {
 				mb.subs[name] = newBucket()
+				m.remember(path, name)
 				x.touch(path)
 				x.invalidate(path, nil)
 				if len(path) >= 1 {
@@ -459,7 +500,13 @@ func (m *machine) kvOp(t *rapid.T, x *txh) {
 			}
 		}
 	case "deleteBucket":
-		name := genName(t, "bname")
+		var subsNow []string
+		if mb != nil {
+			for _, n := range mb.sortedSubs() {
+				subsNow = append(subsNow, n, n)
+			}
+		}
+		name := m.pickName(t, "bname", path, subsNow)
 		exists := false
 		if !x.closed {
 			_, exists = mb.subs[name]
@@ -478,7 +525,7 @@ func (m *machine) kvOp(t *rapid.T, x *txh) {
 			x.killUnder(append(append([]string{}, path...), name))
 		}
 	case "bucket":
-		name := genName(t, "bname")
+		name := m.pickName(t, "bname", path, nil)
 		got := rb.Bucket([]byte(name))
 		exists := false
 		if !x.closed {
@@ -1020,6 +1067,21 @@ func (m *machine) dumpBucket(t *rapid.T, site string, rb database.Bucket, mb *mb
 			return false
 		}
 	}
+	// 5. absence: everything that ever existed under this path and is gone now
+	for name := range m.ever[pathStr(path)] {
+		if _, ok := mb.keys[name]; !ok {
+			if g := rb.Get([]byte(name)); g != nil {
+				m.report(t, "C16:"+site+":Get-absent-key", fmt.Sprintf("bucket %s key %q: got %s, model has no such key", pathStr(path), name, showVal(g)))
+				return false
+			}
+		}
+		if _, ok := mb.subs[name]; !ok {
+			if rb.Bucket([]byte(name)) != nil {
+				m.report(t, "C16:"+site+":Bucket-absent", fmt.Sprintf("bucket %s: nested bucket %q exists, model has none", pathStr(path), name))
+				return false
+			}
+		}
+	}
 	for _, name := range mb.sortedSubs() {
 		sub := mb.subs[name]
 		if sub.opaque {
@@ -1039,13 +1101,20 @@ var profiles = map[string]map[string]int{
 	"mixed": {"kv": 5, "cursor": 4, "beginRW": 1, "beginRO": 1, "commit": 1, "rollback": 1, "update": 1, "view": 1,
 		"closedTx": 1, "dump": 1, "reopen": 1},
 	// long transactions, many cursor steps between the writes
-	"walk": {"kv": 4, "cursor": 14, "beginRW": 3, "beginRO": 1, "commit": 1, "rollback": 1, "update": 1, "dump": 1},
+	// many small commits over a tiny name space, dumps and reopens in between:
+	// aimed at the layering of transaction / write cache / leveldb
+	"churn": {"update": 8, "dump": 3, "reopen": 1, "view": 1, "beginRO": 1, "rollback": 1, "kv": 2, "cursor": 2},
+	"walk":  {"kv": 4, "cursor": 14, "beginRW": 3, "beginRO": 1, "commit": 1, "rollback": 1, "update": 1, "dump": 1},
 }
 
 func runMachine(t *rapid.T, profile string) *machine {
 	dir, err := os.MkdirTemp("", "c16-")
 	if err != nil {
 		t.Fatalf("harness: mkdir: %v", err)
+	}
+	nameAlphabet, nameLens = []byte("abcd"), []int{0, 1, 1, 1, 1, 1, 2, 2, 2, 3}
+	if profile == "churn" {
+		nameAlphabet, nameLens = []byte("ab"), []int{0, 1, 1, 1, 1, 1, 1, 1, 2, 2}
 	}
 	m := &machine{dir: dir, cfg: genConfig(t), root: newBucket(), blocks: map[common.Uint256][]byte{}}
 	m.root.keys["ffldb-writeloc"] = []byte("opaque")
@@ -1407,3 +1476,4 @@ func check(t *testing.T, profile string) {
 
 func TestKVMachine(t *testing.T)   { check(t, "mixed") }
 func TestCursorWalks(t *testing.T) { check(t, "walk") }
+func TestCommitChurn(t *testing.T) { check(t, "churn") }
